@@ -353,6 +353,28 @@ func init() {
 		outside: "free-running parallel executions: concurrency safety is inferred from the absence of any store into pre-existing memory during the query (engine write log over all explored paths); a store found by the engine is confirmed by running the query from two goroutines under the Go race detector",
 		assumptions: []string{"Go memory model: calls that perform no write to shared memory cannot race with each other", "Stack.Addr / Condition.Addr results are not compared between repetitions in the engine (pointer text)"},
 	})
+
+	register(&property{
+		id: "C06",
+		gen: func(tier string, seed int) []symx.CaseSpec {
+			var out []symx.CaseSpec
+			for call := 0; call <= 2; call++ {
+				for enc := 0; enc <= 2; enc++ {
+					out = append(out, cs("VH_C06_Step", call, enc))
+				}
+			}
+			out = append(out, cs("VH_C06_Hist", 1, 0), cs("VH_C06_Hist", 1, 1), cs("VH_C06_Hist", 2, 1))
+			if tier == "thorough" {
+				out = append(out, cs("VH_C06_Hist", 2, 0), cs("VH_C06_Hist", 3, 1))
+			}
+			return out
+		},
+		boundsText: map[string]string{
+			"quick":    "one setter call from an arbitrary condition state: keyword {empty, text}, operator {nil, built-in with any 8-bit code, user-defined}, expression {nil, text, int, Stack, Condition, stringer}, option bits (paren, no-padding, no-nesting) all values, Err nil/non-nil, encapsulation none/single/pair+single; arguments incl. nil operator, empty-text/empty-context operators, empty string, nil, Stack, bool; histories of 1 setter call from Cond(...) and 1-2 from Init()",
+			"thorough": "as quick with histories of 2 calls from Cond(...) and 3 from Init()",
+		},
+		outside: "keywords/expressions with symbolic text (rendering of text is C02's subject); aliases as expression (C12); validity/presentation policies (C14)",
+	})
 }
 
 var _ = fmt.Sprint
